@@ -70,6 +70,25 @@ class Tree(dict):
             raise KeyError(k)
         return dict.__getitem__(self, k)
 
+    # every way of listing the tree agrees with the (symbolic) presence flags: iteration forks on each flag
+    def __iter__(self):
+        return iter([k for k in dict.keys(self) if bool(self.present[k])])
+
+    def keys(self):
+        return list(iter(self))
+
+    def items(self):
+        return [(k, dict.__getitem__(self, k)) for k in self]
+
+    def values(self):
+        return [dict.__getitem__(self, k) for k in self]
+
+    def __len__(self):
+        return len(list(iter(self)))
+
+    def get(self, k, default=None):
+        return dict.__getitem__(self, k) if bool(self.present[k]) else default
+
 
 class AF:
     def __init__(self, uri, cols, present):
